@@ -1280,13 +1280,17 @@ PyObject * matrix_elem_max(PyObject *self, PyObject *args, PyObject *kwrds)
   number a, b;
   if (a_is_number) {
     if (PyNumber_Check(A) || Matrix_Check(A))
-      convert_num[id](&a, A, PyNumber_Check(A), 0);
+    {
+      if (convert_num[id](&a, A, PyNumber_Check(A), 0)) return NULL;
+    }
     else
       a.d = ((SP_LGT(A) > 0) ? SP_VALD(A)[0] : 0.0);
   }
   if (b_is_number) {
     if (PyNumber_Check(B) || Matrix_Check(B))
-      convert_num[id](&b, B, PyNumber_Check(B), 0);
+    {
+      if (convert_num[id](&b, B, PyNumber_Check(B), 0)) return NULL;
+    }
     else
       b.d = ((SP_LGT(B) > 0) ? SP_VALD(B)[0] : 0.0);
   }
@@ -1459,13 +1463,17 @@ PyObject * matrix_elem_min(PyObject *self, PyObject *args, PyObject *kwrds)
   number a, b;
   if (a_is_number) {
     if (PyNumber_Check(A) || Matrix_Check(A))
-      convert_num[id](&a, A, PyNumber_Check(A), 0);
+    {
+      if (convert_num[id](&a, A, PyNumber_Check(A), 0)) return NULL;
+    }
     else
       a.d = ((SP_LGT(A) > 0) ? SP_VALD(A)[0] : 0.0);
   }
   if (b_is_number) {
     if (PyNumber_Check(B) || Matrix_Check(B))
-      convert_num[id](&b, B, PyNumber_Check(B), 0);
+    {
+      if (convert_num[id](&b, B, PyNumber_Check(B), 0)) return NULL;
+    }
     else
       b.d = ((SP_LGT(B) > 0) ? SP_VALD(B)[0] : 0.0);
   }
@@ -1643,8 +1651,8 @@ PyObject * matrix_elem_mul(matrix *self, PyObject *args, PyObject *kwrds)
   int id  = MAX( ida, idb );
 
   number a, b;
-  if (a_is_number) convert_num[id](&a, A, PyNumber_Check(A), 0);
-  if (b_is_number) convert_num[id](&b, B, PyNumber_Check(B), 0);
+  if (a_is_number && convert_num[id](&a, A, PyNumber_Check(A), 0)) return NULL;
+  if (b_is_number && convert_num[id](&b, B, PyNumber_Check(B), 0)) return NULL;
 
   if (a_is_number && b_is_number &&
       (!X_Matrix_Check(A) && !X_Matrix_Check(B))) {
@@ -1862,8 +1870,8 @@ PyObject * matrix_elem_div(matrix *self, PyObject *args, PyObject *kwrds)
 #endif
 
   number a, b;
-  if (a_is_number) convert_num[id](&a, A, PyNumber_Check(A), 0);
-  if (b_is_number) convert_num[id](&b, B, PyNumber_Check(B), 0);
+  if (a_is_number && convert_num[id](&a, A, PyNumber_Check(A), 0)) return NULL;
+  if (b_is_number && convert_num[id](&b, B, PyNumber_Check(B), 0)) return NULL;
 
   if ((a_is_number && b_is_number) &&
       (!X_Matrix_Check(A) && !Matrix_Check(B))) {
